@@ -1,7 +1,8 @@
 """C05 Face areas are the spherical-polygon areas, invariantly"""
 PROPERTY = "C05"
 LEVEL = "proof"
-FUNCTIONS = ['uxarray.grid.grid.Grid.face_areas']
+FUNCTIONS = ['uxarray.grid.grid.Grid.face_areas',
+    'uxarray.grid.grid.Grid.compute_face_areas']
 STANDINS = ["areas"]
 ASSUMPTIONS = []
 EXPLANATION = "quadrature tables / Jacobian contracts + bounded stand-in against the exact spherical excess"
